@@ -55,7 +55,10 @@ impl Future for Child {
         match r {
             Poll::Ready(v) => {
                 w.nested_poll_ready(id);
+                // (dropped by the harness, not by the crate: no scripted output panic here)
+                let saved = w.tok_panics.replace(None);
                 drop(v);
+                w.tok_panics.set(saved);
                 Poll::Ready(Tok::new(ObjKind::Tok, id, 0))
             }
             Poll::Pending => {
